@@ -8,7 +8,7 @@ sys.path.insert(0, os.path.dirname(os.path.dirname(os.path.abspath(__file__))))
 import sylt_gen as G  # noqa: E402
 import vlib  # noqa: E402
 
-GEN = ["GenTokens", "GenPrec"]
+GEN = ["GenTokens", "GenPrec", "GenSrcDigest"]
 TRUSTED = [
     "Coq 8.16.1 kernel (coqc); vm_compute only for table side conditions and examples; no axioms",
     "translators tools/gens/gen_prec.py and tools/gen_tables.py:gen_tokens",
